@@ -16,6 +16,12 @@ import MesonModel.Ninja.Graph
 namespace MesonModel.Ninja.Emit
 open MesonModel.Ninja
 
+/-- `ninja_quote(text, is_build_line=True)` for a text without newline (with a newline the function raises):
+`$`, blank and `:` get a `$` in front, nothing else is touched — in particular not `|` -/
+def ninjaQuoteBuild : Str → Str
+  | [] => []
+  | c :: r => if c = '$' ∨ c = ' ' ∨ c = ':' then '$' :: c :: ninjaQuoteBuild r else c :: ninjaQuoteBuild r
+
 structure Rule where
   name : Str
   rspable : Bool
